@@ -3,6 +3,7 @@
 // setData the object's raw bytes must equal the wire model's serialisation of the shadow (=> depends only on
 // the final logical content), getters must return what was supplied, the own validator and the decoder accept it.
 #pragma once
+#include "failpoint.h"
 #include <asam_cmp/decoder.h>
 
 #include "accessors.h"
@@ -13,6 +14,41 @@
 
 namespace vf {
 namespace c13 {
+
+// One builder call in sixteen runs with an allocation failpoint (one of the call's first three allocations fails). A call that
+// leaves by std::bad_alloc ends the sequence (nothing is demanded of an object whose builder threw); a call that COMPLETES
+// although an allocation failed inside it - the library caught the failure and took another path - is judged like any other.
+template <typename F>
+inline bool builderCall(Ctx& c, Rng& r, F&& call)
+{
+    if (!r.chance(1, 16))
+    {
+        call();
+        return true;
+    }
+    const long at = static_cast<long>(r.below(3));
+    bool threw = false, fired = false;
+    {
+        vf::fp::FailAt f(at);  // (nothing of the harness may allocate inside this scope)
+        try
+        {
+            call();
+        }
+        catch (const std::bad_alloc&)
+        {
+            threw = true;
+        }
+        fired = f.fired();
+    }
+    if (threw)
+    {
+        c.count("builder_calls_left_by_an_allocation_failure");
+        return false;
+    }
+    c.count(fired ? "builder_calls_that_completed_although_an_allocation_failed" : "builder_calls_whose_failpoint_was_not_reached");
+    return true;
+}
+
 
 using wire::Bytes;
 
@@ -177,7 +213,8 @@ void canLike(Ctx& c, Rng& r, bool fd, long forcedLen)
         }
         size_t n = forcedLen >= 0 ? static_cast<size_t>(forcedLen) : pickLen8(r);
         Bytes d = someData(r, n);
-        obj.setData(n || r.chance(1, 2) ? d.data() : nullptr, static_cast<uint8_t>(n));
+        if (!builderCall(c, r, [&] { obj.setData(n || r.chance(1, 2) ? d.data() : nullptr, static_cast<uint8_t>(n)); }))
+            return;
         ck.history += "setData(" + std::to_string(n) + ") ";
         sh.data = d;
         sh.dataLength = static_cast<uint8_t>(n);
@@ -232,7 +269,8 @@ inline void lin(Ctx& c, Rng& r, long forcedLen)
         }
         size_t n = forcedLen >= 0 ? static_cast<size_t>(forcedLen) : pickLen8(r);
         Bytes d = someData(r, n);
-        obj.setData(n || r.chance(1, 2) ? d.data() : nullptr, static_cast<uint8_t>(n));
+        if (!builderCall(c, r, [&] { obj.setData(n || r.chance(1, 2) ? d.data() : nullptr, static_cast<uint8_t>(n)); }))
+            return;
         ck.history += "setData(" + std::to_string(n) + ") ";
         sh.data = d;
         sh.dataLength = static_cast<uint8_t>(n);
@@ -275,7 +313,8 @@ inline void eth(Ctx& c, Rng& r, long forcedLen)
         }
         size_t n = forcedLen >= 0 ? static_cast<size_t>(forcedLen) : pickLen16(r);
         Bytes d = someData(r, n);
-        obj.setData(n || r.chance(1, 2) ? d.data() : nullptr, static_cast<uint16_t>(n));
+        if (!builderCall(c, r, [&] { obj.setData(n || r.chance(1, 2) ? d.data() : nullptr, static_cast<uint16_t>(n)); }))
+            return;
         ck.history += "setData(" + std::to_string(n) + ") ";
         sh.data = d;
         sh.dataLength = static_cast<uint16_t>(n);
@@ -336,7 +375,8 @@ inline void analog(Ctx& c, Rng& r, long forcedLen)
         }
         size_t n = forcedLen >= 0 ? static_cast<size_t>(forcedLen) : (r.chance(1, 20) ? r.pick<size_t>({65519, 65518, 65516}) : pickLen16(r) % 4000);
         Bytes d = someData(r, n);
-        obj.setData(n || r.chance(1, 2) ? d.data() : nullptr, n);
+        if (!builderCall(c, r, [&] { obj.setData(n || r.chance(1, 2) ? d.data() : nullptr, n); }))
+            return;
         ck.history += "setData(" + std::to_string(n) + ") ";
         sh.data = d;
         ck.common(obj, sh.serialize(), nullptr, wire::MT_DATA, wire::PT_ANALOG, &ASAM::CMP::AnalogPayload::isValidPayload);
@@ -443,7 +483,10 @@ inline void cm(Ctx& c, Rng& r, long forced)
         // exact-size heap blocks without terminator (ASan sees a read of the byte behind them)
         unsigned viewKind = forced >= 0 ? static_cast<unsigned>(forced % 3) : static_cast<unsigned>(r.below(3));
         if (viewKind == 0)
-            obj.setData(sh.description, sh.serial, sh.hwVersion, sh.swVersion, vd);
+        {
+            if (!builderCall(c, r, [&] { obj.setData(sh.description, sh.serial, sh.hwVersion, sh.swVersion, vd); }))
+                return;
+        }
         else if (viewKind == 1)
         {
             std::string big = "<" + sh.description + "|" + sh.serial + "#" + sh.hwVersion + "$" + sh.swVersion + ">";
@@ -575,7 +618,8 @@ inline void iface(Ctx& c, Rng& r, long forced)
         // stream ids and vendor data are given non-zero content so that a stale or skipped padding byte shows
         for (auto& b : sh.streamIds)
             b |= 1;
-        obj.setData(ni || r.chance(1, 2) ? sh.streamIds.data() : nullptr, static_cast<uint16_t>(ni), nv || r.chance(1, 2) ? sh.vendorData.data() : nullptr, static_cast<uint16_t>(nv));
+        if (!builderCall(c, r, [&] { obj.setData(ni || r.chance(1, 2) ? sh.streamIds.data() : nullptr, static_cast<uint16_t>(ni), nv || r.chance(1, 2) ? sh.vendorData.data() : nullptr, static_cast<uint16_t>(nv)); }))
+            return;
         ck.history += "setData(ids=" + std::to_string(ni) + ",vendor=" + std::to_string(nv) + ") ";
         ck.common(obj, sh.serialize(), nullptr, wire::MT_STATUS, wire::PT_IF_STATUS, &ASAM::CMP::InterfacePayload::isValidPayload);
         if (obj.getStreamIdsCount() != ni || (ni && (obj.getStreamIds() == nullptr || memcmp(obj.getStreamIds(), sh.streamIds.data(), ni) != 0)))
